@@ -204,6 +204,31 @@ func c16Body(x *Exec, raw json.RawMessage) {
 			}
 		}
 	}
+	// bounded: at no instant are more than `capacity` accepted events outstanding. Lower bound of the number
+	// outstanding at the return of an accepted push: pushes accepted by then minus pops that had started by then.
+	for pi := range pushes {
+		for _, pu := range pushes[pi] {
+			if !pu.ok {
+				continue
+			}
+			out := len(preloaded)
+			for pj := range pushes {
+				for _, o := range pushes[pj] {
+					if o.ok && o.rt <= pu.rt {
+						out++
+					}
+				}
+			}
+			for _, po := range pops {
+				if po.call <= pu.rt {
+					out--
+				}
+			}
+			if out > capacity {
+				x.Fail("capacity-exceeded", "TryPush", "after push %d was accepted at least %d events were outstanding, the maximum is %d", pu.id, out, capacity)
+			}
+		}
+	}
 	if len(pops) > 0 {
 		x.Count("pops")
 	}
